@@ -249,8 +249,21 @@ DoDeliver ==
          c == [DeliverCall(m) EXCEPT !.snd = FALSE, !.dst = TRUE] @@ [a |-> "deliver", mid |-> m.id, dup |-> FALSE] IN
      ~r.unk /\ Finish(c, r, "deliver")
 
+\* "delivered twice" (DESIGN.md 7.2): a hand-over message delivered again at once (at-least-once delivery with an immediate retry).
+\* One model step: first delivery (the message stays in flight), second delivery (it is consumed); the step predicates see the pair
+\* as one delivery, and the world it leaves must be the world ONE delivery leaves (Assert: a design-level claim of the reference)
+DoDeliverTwice ==
+  "handover" \in Fns /\ \E i \in 1..Len(w.msgs) : ~w.msgs[i].dead /\ w.msgs[i].fn = "ESDTNFTCreateRoleTransfer" /\
+     LET m == w.msgs[i]
+         r1 == Deliver(w, m.id, TRUE)
+         once == Deliver(w, m.id, FALSE) IN
+     ~r1.unk /\ r1.ok /\
+     LET r2 == Deliver(r1.w, m.id, FALSE)
+         c == [DeliverCall(m) EXCEPT !.snd = FALSE, !.dst = TRUE] @@ [a |-> "deliver", mid |-> m.id, dup |-> FALSE] IN
+     ~r2.unk /\ Assert(r2.ok /\ r2.w = once.w, "a hand-over message delivered twice in a row does not leave what one delivery leaves") /\ Finish(c, r2, "deliver")
+
 Init == cfg = MCCfg /\ w = W0 /\ h = [supply |-> (TokF :> 2), tsupply |-> (TokF :> 2), maxn |-> <<>>, made |-> {}, flagged |-> {}] /\ ev = [a |-> "init", fn |-> "", caller |-> "", rcpt |-> "", res |-> "ok", sh |-> 0, gas |-> 0, ct |-> 0, mid |-> -1, rae |-> FALSE, args |-> <<>>] /\ viol = {}
-Next == DoExec \/ DoDeliver \/ DoSched
+Next == DoExec \/ DoDeliver \/ DoDeliverTwice \/ DoSched
 Spec == Init /\ [][Next]_vars
 
 ---------------------------------------------------------------------------
